@@ -223,8 +223,10 @@ def monitor(R, out, log, quat_only=False, failed_steps=()):
         rtol, atol = spec["kwargs"]["rtol"], spec["kwargs"]["atol"]
         scale = 1.0 + max(umax, float(np.max(np.abs(q))))
         bound = 100 * (atol + rtol * scale)
-        if max(gs[1:], default=0) > bound or max(gds[1:], default=0) > bound * 10:
-            bad("pos_constraint", name, f"max |g|={max(gs):.3e}, max |g_dot|={max(gds):.3e} exceed {bound:.3e} (rtol={rtol:g})")
+        # the velocity-level constraint is one of the algebraic equations of the stabilised index-2 system: its residual
+        # is governed by the integrator's Newton tolerance (observed <= 0.05 (atol + rtol scale)); bound 10 (atol + rtol scale)
+        if max(gs[1:], default=0) > bound or max(gds[1:], default=0) > bound * 0.1:
+            bad("pos_constraint" if max(gs[1:], default=0) > bound else "vel_constraint", name, f"max |g|={max(gs):.3e} (bound {bound:.3e}), max |g_dot|={max(gds):.3e} (bound {0.1 * bound:.3e}) (rtol={rtol:g})")
             return
         third = max(nt // 3, 1)
         first, last = max(gs[:third] + gds[:third]), max(gs[-third:] + gds[-third:])
